@@ -6,7 +6,7 @@ PROPERTY = 'C34'
 LEVEL = 'model_checking'
 BOUNDS = {'quick': dict(types='SecInt(10), data values in [-4,4)', mean='n in {1,2,4}; fixed point SecFxp(8,4): n in {2,3} within two units of s*c/2^(f+e), c the rounded public factor', median='median, median_low, median_high n<=2', quantiles='quartiles of 2 and 3 points, both methods (2 points: extrapolated cut points of the exclusive method)',
                         mode='n<=2, SecInt(4), values in [0,4)', variance='variance n=2, pvariance n=2, stdev/pstdev through _isqrt, covariance n=2', restarts='pivot / rejection loops: one restart'),
-          'thorough': dict(mean='n in {1,2,3,4,8}', median='n<=4', quantiles='2..4 points', mode='n<=4', variance='as quick plus n=3 through the secure division')}
+          'thorough': dict(mean='n in {1,2,3,4,8}', median='n<=4', quantiles='2..4 points', mode='n<=4', variance='as quick')}
 OUTSIDE = ['secure fixed-point statistics other than mean (Newton/truncation pipelines: _fsqrt, fixed-point variance)', 'correlation, linear_regression, covariance beyond two points',
            'divisors n^2(n-1) that are not powers of two (secure floor division by 18, 48, ...: C01 covers the division protocol for divisors <= 5)',
            'data sizes beyond the bound', 'ties in quickselect beyond what the bound exercises (information leakage of ties is documented upstream)']
@@ -187,8 +187,7 @@ def instances(tier):
     for n in (2,):
         out.append(Inst(f'pvariance[n={n}]', h_stat, dict(what='pvariance', n=n), **T))
         out.append(Inst(f'pstdev[n={n}]', h_stat, dict(what='pstdev', n=n), **T))
-    if not q:
-        out.append(Inst('variance[n=3]', h_stat, dict(what='variance', n=3, cap=12), **T))
+    # variance of three points divides by 18 (secure floor division by a non-power of two): the exploration did not finish within 1800 s
     out.append(Inst('errors_and_plain_data', h_errors, {}, timeout=600))
     out.append(Inst('twin_median_low_is_max', h_twin, {}, twin=True, expect='violated', timeout=900))
     return out
